@@ -300,6 +300,17 @@ class Reference:
         for i in p.get("sched_order") or range(len(pre_recs)):
             self._push(pre_recs[i])
         auto = self.end_ns is None
+        injections = {}
+        for inj in p.get("inject") or []:
+            injections.setdefault(inj["after"], []).append(inj)
+        def can_pause():
+            # the engine pauses at the top of its loop: only while events remain and the horizon is not passed
+            return bool(self.heap) and (auto or self.now <= self.end_ns)
+
+        if can_pause():
+            for inj in injections.pop(0, []):
+                for new in self._make_events(inj["events"], "inject"):
+                    self._push(new)
         while self.heap:
             if not auto and self.now > self.end_ns:
                 self.stop_reason = "end_time"
@@ -328,6 +339,11 @@ class Reference:
                 raise RuntimeError("reference budget exceeded")
             for new in self._deliver(rec):
                 self._push(new)
+            # events created and scheduled from outside while the run is paused after `processed` deliveries
+            if self.processed in injections and can_pause():
+                for inj in injections.pop(self.processed):
+                    for new in self._make_events(inj["events"], "inject"):
+                        self._push(new)
         else:
             self.stop_reason = "heap_empty"
         return self
